@@ -26,13 +26,13 @@ def queries(tier):
                     bounds="input ring of %d bytes, start offset by driver-side case split over all offsets (wrapped content included), 1..%d arbitrary bytes delivered in one or two segments at every cut, decoder at a frame start" % (lmax + 2, lmax),
                     outside="more than one frame; more than two segments; the sender side (mpt_queue_push) and the end-to-end pipe (measured: > 600 s / > 8 GB per offset pair); stream layers"))
     for (nm, enc, dec) in fr[:1] if tier == "quick" else fr:
-        for prev in (0, 1):
-            for off in (range(0, 8) if tier == "thorough" else (0, 3, 5, 7)):
+        for prev in (0, 1, 2):
+            for off in (range(0, 8) if tier == "thorough" else ((0, 3, 5, 7) if prev < 2 else (5, 6))):
                 qs.append(Q("send_%s_prev%d_off%d" % (nm, prev, off), "C02/send.c", units=U,
                             harness_defines={"ENC": enc, "VARIANT": DECV[nm], "OFF": off, "PREV": prev, "QMAX": 8, "NMSG": 3}, unwind_default=8,
                             unwind={"mpt_memrev": 2, "mpt_memswap": 2, "memcpy": 12, "memmove": 12, "memset": 12, "ref_decode": 9, "harness": 10,
                                     "mpt_encode_cobs": 6, "mpt_encode_cobs_zpe": 6, "mpt_memrchr": 10, "mpt_memchr": 10, "memchr": 10},
                             fp=[(r"_enc", [enc])], stubs=["libc.c", "libc_loops.c", "abort.c"], flags=["--max-field-sensitivity-array-size", "300"], timeout=600,
-                            bounds="output ring of 8 bytes starting at offset %d%s; one message of 0..3 symbolic bytes in 1-2 pushes at every split, then terminated" % (off, ", an earlier empty frame still queued" if prev else ""),
+                            bounds="output ring of 8 bytes starting at offset %d%s; one message of 0..3 symbolic bytes in 1-2 pushes at every split, then terminated" % (off, ", %d earlier empty frame(s) still queued" % prev if prev else ""),
                             outside="messages above 3 bytes; more than one earlier frame; capacity exhaustion; stream layers"))
     return qs
